@@ -96,9 +96,9 @@ def gen_pair(rng, i):
     if k < 0.72:
         # targeted: two arrays with the same shape, dtype and raw buffer but another memory layout (a transposed
         # view), i.e. other logical content
-        r, c = rng.choice([(2, 3), (3, 2), (2, 2), (3, 4)])
+        r, c = rng.choice([(2, 3), (3, 2), (2, 2), (3, 4), (100, 100), (96, 128)])   # the last two exceed any chunk size
         dt = rng.choice(["int64", "float64", "int32", "uint8"])
-        vals = list(range(1, r * c + 1))
+        vals = list(range(1, r * c + 1)) if r * c < 100 else [(i * 7919) % 251 for i in range(r * c)]
         rng.shuffle(vals)
         return {"aspect": "value-np-layout", "t1": {"k": "value", "spec": ["nd", dt, [r, c], vals]},
                 "t2": {"k": "value", "spec": ["ndTT", dt, [r, c], vals]}}
